@@ -9,3 +9,24 @@ Theorem C16_depth :
     zlen (stack s) <= zlen (exec_targets p) + 1.
 Proof. exact C16_depth_proof. Qed.
 Print Assumptions C16_depth.
+
+(* ---- source level: callees are earlier definitions; the reference machine's depth is bounded ---- *)
+From Theo Require Import Tokens MacroExtract Parser RefSem SemStatements Proofs_Sem.
+
+Theorem C16_calls_earlier :
+  forall root rs, abstract_source root = Some rs ->
+    forall k r, nth_error rs k = Some r -> forallb (instr_calls_below k) (r_code r) = true.
+Proof. exact C16_calls_earlier_proof. Qed.
+Print Assumptions C16_calls_earlier.
+
+Theorem C16_ref_depth :
+  forall rs, (forall k r, nth_error rs k = Some r -> forallb (instr_calls_below k) (r_code r) = true) ->
+    forall fuel ctx k a pc steps trace,
+      (k < length rs)%nat ->
+      match run rs fuel ctx k a pc steps trace with
+      | ODone _ _ tr | OStop _ _ tr =>
+          forall l vs, In (l, vs) tr -> In (l, vs) trace \/ (length vs <= length ctx + k + 1)%nat
+      | _ => True
+      end.
+Proof. exact C16_ref_depth_proof. Qed.
+Print Assumptions C16_ref_depth.
